@@ -11,8 +11,8 @@ from extract import ExtractionError
 
 FLATTEN = "prqlc/prqlc/src/semantic/resolver/flatten.rs"
 
-LABELS = ["FS1", "FS2", "FS3", "FG1", "FG2", "FG3", "FG4", "FT1", "FT2", "FT3"]
-FUNCTIONS = ["flatten_sort_arm", "flatten_group_arm", "flatten_call_slice"]
+LABELS = ["FS1", "FS2", "FS3", "FG1", "FG2", "FG3", "FG4", "FT1", "FT2", "FT3", "FW1", "FW2", "FW3"]
+FUNCTIONS = ["flatten_sort_arm", "flatten_group_arm", "flatten_call_slice", "flatten_window_arm"]
 RLIMIT = 80
 
 ASSUMED = [
@@ -23,7 +23,7 @@ ASSUMED = [
              "clone_from / clear, Option<Box<Expr>>::clone, WindowFrame::clone have their std meaning; `matches!(by.kind, Tuple(fields) if fields.is_empty())` is is_empty_tuple()",
      "keys": ["struct PlExpr", "struct ReplaceMap", "fn insert", "fn remove", "fn into_func_unwrap", "spec fn func_body", "fn parse_usize_unwrap", "fn fold_expr", "fn fold_column_sorts",
               "spec fn folded_sorts", "fn clone_sorts", "fn clone_from_sorts", "fn clear_sorts", "fn clone_partition", "fn clone_frame", "fn is_empty_tuple", "spec fn empty_tuple",
-              "struct ColumnSortPl", "struct WindowFramePl", "fn box_new"]},
+              "struct ColumnSortPl", "struct WindowFramePl", "fn box_new", "fn make_frame", "spec fn frame_of", "fn default_frame", "spec fn default_frame_spec"]},
 ]
 TRUSTED = [
     "oracle (C03): a sort is in effect for every transform downstream of it until the next sort - the most recent one wins; a group (with a non-empty key) resets it: "
@@ -65,6 +65,10 @@ pub uninterp spec fn empty_tuple(e: Expr) -> bool;
 #[verifier::external_body] pub fn clone_partition(p: &Option<Box<Expr>>) -> (r: Option<Box<Expr>>) ensures r == *p, { unimplemented!() }
 #[verifier::external_body] pub fn clone_frame(w: &WindowFrame) -> (r: WindowFrame) ensures r == *w, { unimplemented!() }
 #[verifier::external_body] pub fn box_new<T>(t: T) -> (r: Box<T>) ensures *r == t, { unimplemented!() }
+pub uninterp spec fn frame_of(kind: WindowKind, range: Range) -> WindowFrame;
+#[verifier::external_body] pub fn make_frame(kind: WindowKind, range: Range) -> (r: WindowFrame) ensures r == frame_of(kind, range), { unimplemented!() }
+pub uninterp spec fn default_frame_spec() -> WindowFrame;
+#[verifier::external_body] pub fn default_frame() -> (r: WindowFrame) ensures r == default_frame_spec(), { unimplemented!() }
 """
 
 SHIM2 = r"""
@@ -72,12 +76,12 @@ pub struct TransformCall { pub input: Box<Expr>, pub kind: Box<TransformKind>, p
 pub enum ExprKind { TransformCall(TransformCall), Other(OpaqueT) }
 
 // what was in effect when the folding of an expression started
-pub struct Env { pub sort_undone: bool, pub partition: Option<Box<Expr>>, pub sort: Seq<ColumnSort> }
+pub struct Env { pub sort_undone: bool, pub partition: Option<Box<Expr>>, pub sort: Seq<ColumnSort>, pub window: WindowFrame }
 pub struct Flattener {
     pub sort: Vec<ColumnSort>, pub sort_undone: bool, pub partition: Option<Box<Expr>>, pub window: WindowFrame, pub replace_map: ReplaceMap,
     pub log: Ghost<Seq<(Expr, Env)>>,
 }
-pub open spec fn env_of(f: Flattener) -> Env { Env { sort_undone: f.sort_undone, partition: f.partition, sort: f.sort@ } }
+pub open spec fn env_of(f: Flattener) -> Env { Env { sort_undone: f.sort_undone, partition: f.partition, sort: f.sort@, window: f.window } }
 pub uninterp spec fn folded_sorts(by: Seq<ColumnSort>) -> Seq<ColumnSort>;
 impl Flattener {
     #[verifier::external_body]
@@ -140,6 +144,29 @@ def build(X):
                "{\n    " + ga.text + "\n    Ok(pipeline)\n}\n}\n")
     ga.rewrites.append({"rule": "slice", "what": "the TransformKind::Group arm of Flattener::fold_expr wrapped as a method; returns the folded inner pipeline"})
 
+    # ---- Window arm
+    wa = X.arm_body(FLATTEN, "fold_expr", "TransformKind::Window {", name="flatten_window_arm")
+    mw = re.search(r"\n\s*return Ok\(Expr \{.*$", wa.text, re.S)
+    if not mw:
+        raise ExtractionError("Window arm: tail (construction of the result Expr) not where the unit expects it")
+    wa.text = wa.text[:mw.start()] + "\n"
+    wa.rewrites.append({"rule": "R5", "what": "tail of the arm (construction of the result Expr with the window call's type / lineage) dropped"})
+    wa.rewrite("R5", "pipeline.kind.into_func().unwrap()", "into_func_unwrap(pipeline)", why="enum_as_inner accessor + unwrap")
+    wa.rewrite("R5", "table_param.name.parse::<usize>().unwrap()", "parse_usize_unwrap(&table_param.name)", why="str::parse")
+    wa.rewrite_re("R5", r"\bWindowFrame \{ kind, range \}", "make_frame(kind, range)", count=1, why="struct literal of the (here opaque) frame")
+    wa.rewrite_re("R5", r"\bWindowFrame::default\(\)", "default_frame()", count=None, why="Default::default")
+    wa.text = ("impl Flattener {\npub fn flatten_window_arm(&mut self, t: TransformCallInput, kind: WindowKind, range: Range, pipeline: Box<Expr>) -> (r: Result<Expr, Error>)\n"
+               "    ensures\n"
+               "        // C04: what is upstream of `window` is folded with the frame that was in effect before ..\n"
+               "        r is Ok ==> (final(self).log@.len() == old(self).log@.len() + 2 && final(self).log@[old(self).log@.len() as int] == (*t.input, env_of(*old(self)))), // @FW1\n"
+               "        // .. the window's inner pipeline is folded with exactly the frame the window transform states, everything else as it was ..\n"
+               "        r is Ok ==> ({ let e = final(self).log@[old(self).log@.len() as int + 1];\n"
+               "            e.0 == *func_body(*pipeline) && e.1.window == frame_of(kind, range) && e.1.sort_undone == old(self).sort_undone && e.1.partition == old(self).partition }), // @FW2\n"
+               "        // .. and nothing downstream of the window transform inherits its frame\n"
+               "        r is Ok ==> final(self).window == default_frame_spec(), // @FW3\n"
+               "{\n    " + wa.text + "\n    Ok(pipeline)\n}\n}\n")
+    wa.rewrites.append({"rule": "slice", "what": "the TransformKind::Window arm of Flattener::fold_expr wrapped as a method; returns the folded inner pipeline"})
+
     # ---- tail: the transform call that is built
     ts = X.slice(FLATTEN, "fold_expr", "let sort = if matches!(kind, TransformKind::Join", "sort,\n                })", name="flatten_call_slice")
     ts.rewrite_re("R5", r"\bvec!\[\]", "Vec::new()", count=None, why="empty vec! literal")
@@ -156,7 +183,7 @@ def build(X):
                "        final(self).sort@ == old(self).sort@ && final(self).partition == old(self).partition && final(self).window == old(self).window, // @FT3\n"
                "{\n    " + ts.text + "\n}\n}\n")
     ts.rewrites.append({"rule": "slice", "what": "`let sort = ..;` and the ExprKind::TransformCall(..) expression that follows it, wrapped as a method"})
-    return PRELUDE + tk.text + "\n" + SHIM2 + sa.text + "\n" + ga.text + "\n" + ts.text + "\n} // verus!\nfn main() {}\n"
+    return PRELUDE + tk.text + "\n" + SHIM2 + sa.text + "\n" + ga.text + "\n" + wa.text + "\n" + ts.text + "\n} // verus!\nfn main() {}\n"
 
 
 # ----------------------------------------------------------------------------- replay on the real compiler
